@@ -382,7 +382,7 @@ def settle (c : Chart) (s : SState) : SState × Bool :=
   let (s, ok) := macrostep c 60 s
   if !ok then (s, false)
   else if !s.running then (exitInterpreter c s, true)
-  else ({ s with x := (s.x.emit .st).emit (.raw (cfgToken c s.config)) }, true)
+  else ({ s with x := (s.x.emit .st).emit (.note (cfgToken c s.config)) }, true)
 
 /-- from a stable point: take external events until the external queue is empty -/
 def drain (c : Chart) : Nat → SState → SState × Bool
@@ -414,6 +414,6 @@ def run (c : Chart) (events : List String) (q : Quirks := {}) : List String :=
   let (s, ok) := events.foldl (fun (acc : SState × Bool) ev =>
     if !acc.2 || !acc.1.running then acc
     else drain c 40 { acc.1 with x := acc.1.x.sendExt ev }) (s, ok)
-  ((if ok then s.x.obs else Tok.raw "DIVERGE" :: s.x.obs).reverse).map Tok.toString
+  ((if ok then s.x.obs else Tok.note "DIVERGE" :: s.x.obs).reverse).map Tok.toString
 
 end UscxmlVerif.Spec.W3C
